@@ -61,10 +61,10 @@ def main():
         "engines": [{
             "name": "lean4-model+correspondence", "path": "/verif/lean/OFCore + /verif/harness/ofverif",
             "serves_properties": [c["property_id"] for c in checks],
-            "kind_free_text": "Lean 4 executable models and kernel-checked theorems (lake project OFCore); compiled model driver over a line protocol; Python harness running the real openfisca-core in-process on the same inputs; property oracles for failing-input search",
+            "kind_free_text": "Lean 4 executable models and kernel-checked theorems (lake project OFCore); decision code translated from the source on every run with tie theorems; compiled model driver over a line protocol; Python harness running the real openfisca-core in-process on the same inputs; property oracles for failing-input search",
         }],
         "checks": checks,
-        "notes": "See DESIGN.md. `./check Cxx --tier quick|thorough`; VERIF_SEED seeds the single PRNG; OFV_REPO selects the tree under test.",
+        "notes": "See DESIGN.md (section 14 for the second round). `./check Cxx --tier quick|thorough`; VERIF_SEED seeds the single PRNG; OFV_REPO selects the tree under test. The models are tied to the source BOTH ways on every run: a differential correspondence (model driver vs the real code in-process) and, for the decision code of the engine, a Python->Lean translation of the current source (harness/ofverif/translate.py -> OFCore/Generated*.lean) with tie theorems in OFCore/Props/CxxTie.lean. A changed source (AST fingerprints, source_fingerprints.json) never alarms by itself; it escalates the exploration budget of the run. Genuine defects repaired by unguarded `fix:` commits in /repo are listed in known_findings.json (status fixed, with the commit); open findings print KNOWN-FINDING lines.",
         "not_applicable": na,
     }
     with open(os.path.join(VERIF, "MANIFEST.json"), "w") as f:
